@@ -246,3 +246,7 @@ package ipfscluster
 //@ spec func localOnly(k string) bool = k == "Cluster.Alerts" || k == "Cluster.BlockAllocate" || k == "Cluster.ConnectGraph" || k == "Cluster.Join" || k == "Cluster.Pin" || k == "Cluster.PinGet" || k == "Cluster.PinPath" || k == "Cluster.Pins" || k == "Cluster.Recover" || k == "Cluster.RecoverAll" || k == "Cluster.RepoGC" || k == "Cluster.SendInformerMetric" || k == "Cluster.SendInformersMetrics" || k == "Cluster.Status" || k == "Cluster.StatusAll" || k == "Cluster.StatusAllLocal" || k == "Cluster.StatusLocal" || k == "Cluster.Unpin" || k == "Cluster.UnpinPath" || k == "Consensus.Peers" || k == "IPFSConnector.BlockGet" || k == "IPFSConnector.ConfigKey" || k == "IPFSConnector.Pin" || k == "IPFSConnector.PinLs" || k == "IPFSConnector.PinLsCid" || k == "IPFSConnector.Resolve" || k == "IPFSConnector.Unpin" || k == "PeerMonitor.LatestMetrics" || k == "PeerMonitor.MetricNames" || k == "PinTracker.RecoverAll" || k == "PinTracker.Track" || k == "PinTracker.Untrack"
 //@ lemma local_only_closed: forall k string :: localOnly(k) ==> haskey(DefaultRPCPolicy, k) && DefaultRPCPolicy[k] == RPCClosed
 //@   property C07
+
+// cbor decoding glue of the sharding package and the ipld node accessors: assumed not to touch cluster state
+//@ extern sharding.CborDataToNode(raw, format)
+//@   modifies nothing
